@@ -378,6 +378,8 @@ func runAbrupt(kind, first string) *abruptCase {
 	srv := lime.NewServer(cfg, &lime.EnvelopeMux{}, lime.NewBoundListener(l, addr))
 	done := make(chan error, 1)
 	go func() { done <- srv.ListenAndServe() }()
+	markIdle(1)
+	defer clearIdle()
 	ctx, cancel := context.WithTimeout(context.Background(), 5*time.Second)
 	defer cancel()
 	id, state := "x1", first
@@ -455,7 +457,7 @@ func runAbrupt(kind, first string) *abruptCase {
 	time.Sleep(2 * time.Millisecond)
 	c.Est, c.Fin = int(atomic.LoadInt32(&est)), int(atomic.LoadInt32(&fin))
 	for i := 0; i < 2000; i++ {
-		if err := srv.Close(); err == nil || err.Error() != "server not listening" {
+		if err := srv.Close(); !notServingYet(err) {
 			break
 		}
 		time.Sleep(time.Millisecond)
